@@ -50,28 +50,36 @@ where
       source.inner_subscribe(sctl.new_observer(
         move |_, x: Item| {
           let key = f.call(x.clone()); // Umm, can I use it as a reference?
-          let sbj = {
+          // look the group up (or create it) under the lock, announce and feed it after the lock
+          // is released: subscribers may call back into the pipeline from their callbacks
+          let (sbj, is_new) = {
             let mut sbjmap = sbjmap_next.write().unwrap();
             if let Some(sbj) = sbjmap.get(&key) {
-              sbj.clone()
+              (sbj.clone(), false)
             } else {
               let sbj = subjects::Subject::<Item>::new();
               sbjmap.insert(key, sbj.clone());
-              sctl_next.sink_next(sbj.observable());
-              sbj
+              (sbj, true)
             }
           };
+          if is_new {
+            sctl_next.sink_next(sbj.observable());
+          }
           sbj.next(x);
         },
         move |_, e| {
-          sbjmap_error.read().unwrap().iter().for_each(|x| {
-            x.1.error(e.clone());
+          let groups =
+            Vec::from_iter(sbjmap_error.read().unwrap().iter().map(|x| x.1.clone()));
+          groups.iter().for_each(|x| {
+            x.error(e.clone());
           });
           sctl_error.sink_error(e);
         },
         move |serial| {
-          sbjmap_complete.read().unwrap().iter().for_each(|x| {
-            x.1.complete();
+          let groups =
+            Vec::from_iter(sbjmap_complete.read().unwrap().iter().map(|x| x.1.clone()));
+          groups.iter().for_each(|x| {
+            x.complete();
           });
           sctl_complete.sink_complete(&serial);
         },
